@@ -154,7 +154,7 @@ def run_verus_unit(uname, ucfg, tier):
     # canaries (vacuity guard 3): deliberate edits of the *generated unit text* that must make a named obligation fail
     if not failed and not undecided and ucfg.get('canaries') and (tier == 'thorough' or ucfg.get('canaries_in_quick', True)):
         res['canaries'] = run_canaries(uname, ucfg, text)
-        dead = [c for c in res['canaries'] if not c['killed']]
+        dead = [c for c in res['canaries'] if c['killed'] is False]
         if dead:
             res.update(status='undecided', reason='vacuity guard 3: canary edit(s) not detected: ' + ', '.join(c['name'] for c in dead))
     return res
@@ -166,7 +166,7 @@ def run_canaries(uname, ucfg, text):
     def one(c):
         t2, n = re.subn(c['sub'][0], c['sub'][1], text, count=1, flags=re.S)
         if n != 1:
-            return dict(name=c['name'], killed=False, why='pattern not found in generated unit')
+            return dict(name=c['name'], killed=None, skipped=True, why='pattern not found in the generated unit (the code changed shape): canary not applicable on this tree')
         p = os.path.join(BUILD, 'units', uname + '__canary_' + c['name'] + '.rs')
         open(p, 'w').write(t2)
         r = verus.run(p, rlimit=ucfg.get('rlimit', 30), threads=2, timeout=ucfg.get('timeout', 600))
